@@ -298,6 +298,20 @@ def _satisfies(cfg, w, lo, hi):
   return True
 
 
+def _terms_magnitude(w, z):
+  """max over examples and units of sum_i |w[i, unit]| * |z[example, unit, i]|.
+
+  The float32 rounding of the layer's sum scales with its TERMS, not with its
+  value: weights 0.447 on inputs 968 and -970.875 give an output of -1.3 built
+  from terms of 433, i.e. an absolute error of a few ulp32(433) = 3e-5.
+  """
+  z = np.abs(np.asarray(z, np.float64))
+  if z.ndim == 2:
+    z = z[:, None, :]
+  return float(np.max(np.einsum("bui,iu->bu", np.broadcast_to(
+      z, (z.shape[0], w.shape[1], z.shape[2])), np.abs(w))))
+
+
 def run_case(case):
   out = Outcome()
   cfg = case["cfg"]
@@ -422,7 +436,8 @@ def run_case(case):
     fa, fb, f0 = f(pack(xa)), f(pack(xb)), f(pack(x0))
     out.checks += 1
     out.label("cons:mono-dominance")
-    sc = max(1.0, np.max(np.abs(fa)), np.max(np.abs(fb)), np.max(np.abs(f0)))
+    sc = max(1.0, np.max(np.abs(fa)), np.max(np.abs(fb)), np.max(np.abs(f0)),
+             _terms_magnitude(w, xa), _terms_magnitude(w, xb))
     if np.any((fa - f0) - (fb - f0) < -TOL_W * sc):
       out.violate("unit step along dominant input %d changes output less than "
                   "along weak input %d" % (a, b), kind="fn-mono-dominance")
@@ -446,7 +461,8 @@ def run_case(case):
       fa, fb, f0 = f(pack(xa)), f(pack(xb)), f(pack(xs))
       out.checks += 1
       out.label("cons:mono-dominance@batch")
-      sc = max(1.0, np.max(np.abs(fa)), np.max(np.abs(fb)), np.max(np.abs(f0)))
+      sc = max(1.0, np.max(np.abs(fa)), np.max(np.abs(fb)), np.max(np.abs(f0)),
+               _terms_magnitude(w, xa), _terms_magnitude(w, xb))
       if np.any((fa - f0) - (fb - f0) < -TOL_W * sc):
         out.violate("unit step from a batch point along dominant input %d "
                     "changes output less than along weak input %d" % (a, b),
